@@ -1,6 +1,7 @@
 import Driver.Ops.Run
 import Driver.Ops.Balance
 import Driver.Ops.Rematch
+import Driver.Ops.Audit
 /-! Line-protocol driver of the model: one JSON case per input line, one JSON answer per line.
     To add an op: write `Driver/Ops/<Name>.lean`, import it here, add one line to `opTable`
     (or to `outputTable` for a new output kind of op `run`). -/
@@ -17,7 +18,9 @@ def opTable : List (String × (Json → R Json)) := [
   ("run", Ops.opRun outputTable),
   ("rematch", Ops.opRematch),
   ("peel", Ops.opPeel),
-  ("selects", Ops.opSelects)
+  ("selects", Ops.opSelects),
+  ("audit", Ops.opAudit),
+  ("hash", Ops.opHash)
 ]
 
 def dispatch (j : Json) : R Json := do
